@@ -893,7 +893,8 @@ func runC09(c *Ctx) {
 	//    with the input that caused it;
 	//  * a call that never returns (leaked lock, endless loop) is the observable "hang"; the
 	//    goroutine left behind poisons the process, so the child stops after reporting it.
-	c09RunChildren(c, []string{"core", "config", "session-hook", "session-real", "web", "cli", "symbolize"})
+	c09RunChildren(c, []string{"core", "config", "session-hook", "session-real", "web", "cli", "symbolize",
+		"matrix-session-0", "matrix-session-1", "matrix-session-2", "matrix-cli", "matrix-web"})
 }
 
 // c09Core runs the model-compared streams of the decision cores.
